@@ -60,7 +60,7 @@ CLAIMED = {
             "capacities 1..3, observers receiving several versions at once. Found two defects (fixed).", "DESIGN.md §5 C16"),
     "C17": ("Partial. MemoryAdapter (directly and through the Arc<RwLock<Box<dyn Adapter>>> wrapper), FilesystemAdapter (over an ideal in-memory file-system model, incl. a second instance on the same "
             "directory) and Flate2Adapter over both (Deflate abstracted to an invertible framing), executed from MIR against one reference model of the write-once contract for all sequences of 1..2 "
-            "(thorough 3) writes with symbolic keys and contents: first write wins, whole and ranged reads, missing keys, listing by suffix. Found the Flate2 listing defect (fixed). SQLite / Solid / Brotli "
+            "writes with symbolic keys and contents: first write wins, whole and ranged reads, missing keys, listing by suffix. Found the Flate2 listing defect (fixed). SQLite / Solid / Brotli "
             "and the real codec / OS behaviour are N/A for this technique.", "DESIGN.md §5 C17, §6"),
     "C18": ("Partial: the same history run with canonical orders vs with <= nd_budget reversed iteration events (hash tables, sequentialised worker pool), reversed storage listing and symbolic cache "
             "capacities 1..3 yields the same objects, winners, conflicts and documents (also after reopen and on the second replica); three-way array conflicts learnt in any order. Worker-pool sizes / real "
